@@ -20,7 +20,7 @@ from sims.adv_run import run_real, script_line, cmd_hash
 LEAN_TARGETS = ["NfcVerif.Props.C08", "drv_c08"]
 
 THEOREMS = [
-    "NfcVerif.C08.t1_read_safe", "NfcVerif.C08.t3_read_safe", "NfcVerif.C08.t4_read_safe",
+    "NfcVerif.C08.t1_read_safe", "NfcVerif.C08.t2_read_safe", "NfcVerif.C08.t3_read_safe", "NfcVerif.C08.t4_read_safe",
     "NfcVerif.C08.activate_safe", "NfcVerif.C08.isodep_wtx_endless_counterexample",
 ]
 
